@@ -67,8 +67,8 @@ def main():
     # EDIT_DISTANCE measure: real q-gram tokenizer on symbolic strings, real integer kernel
     from harness import h_ed
     for flt in ('SizeFilter', 'PrefixFilter', 'PositionFilter', 'SuffixFilter'):
-        ck.e2('ed-pair-%s' % flt, h_ed.make(dict(entry='filter_pair', filter=flt, lens=[1, 2] if quick else [0, 1, 2, 3],
-                                                 q=[2], padding=[True], taus=[1] if quick else [0, 1, 2], props=P)),
+        ck.e2('ed-pair-%s' % flt, h_ed.make(dict(entry='filter_pair', filter=flt, lens=[1, 2] if quick else [1, 2, 3],
+                                                 q=[2], padding=[True], taus=[1] if quick else [1, 2], props=P)),
               bounds=dict(strings='len <= %d' % (2 if quick else 3), q=2))
         ck.e2('ed-pair-two-letters-%s' % flt, h_ed.make(dict(entry='filter_pair', filter=flt, lens_l=[3, 4],
                                                              lens_r=[4, 5] if not quick else [4], alphabet=2, q=[2],
